@@ -177,6 +177,96 @@ Section Model.
     gsum (length Xs) (fun s => cp_mttkrp (nth s Xs (mk [] [])) w facs k i r
                                *f (vget ys s -f cp_inner (nth s Xs (mk [] [])) w (set_nth k A facs) rank)).
 
+  (* ---------------- Tucker / HOOI (decomposition/_tucker.py:partial_tucker) ----------------
+     entry ((i_1..i_n), (a_1..a_n)) of the Kronecker product of the factors; core = X x_k U_k' (multi_mode_dot with
+     transpose=True), reconstruction = core x_k U_k; a mode that is not decomposed carries the identity matrix *)
+  Fixpoint tkw (Us : list mat) (a idx : list nat) : F :=
+    match Us, a, idx with
+    | U :: Us', x :: a', i :: idx' => mget U i x *f tkw Us' a' idx'
+    | _, _, _ => f1 Op
+    end.
+  Definition tk_core_at (X : tensor F) (Us : list mat) (a : list nat) : F :=
+    gsum (prod (shape X)) (fun o => nth o (data X) (f0 Op) *f tkw Us a (unravel (shape X) o)).
+  Definition tk_core (X : tensor F) (Us : list mat) (rs : list nat) : tensor F :=
+    mk rs (map (fun q => tk_core_at X Us (unravel rs q)) (seq 0 (prod rs))).
+  Definition tk_rec_at (rs : list nat) (core : list F) (Us : list mat) (idx : list nat) : F :=
+    gsum (prod rs) (fun q => nth q core (f0 Op) *f tkw Us (unravel rs q) idx).
+  Definition tk_sqerr (X : tensor F) (rs : list nat) (core : list F) (Us : list mat) : F :=
+    gsum (prod (shape X)) (fun o => fsq (nth o (data X) (f0 Op) -f tk_rec_at rs core Us (unravel (shape X) o))).
+  (* the objective HOOI descends on: squared error with the core recomputed from the factors *)
+  Definition tk_hooi_obj (X : tensor F) (rs : list nat) (Us : list mat) : F :=
+    tk_sqerr X rs (data (tk_core X Us rs)) Us.
+  Definition tk_core_norm2 (X : tensor F) (rs : list nat) (Us : list mat) : F :=
+    gsum (prod rs) (fun q => fsq (tk_core_at X Us (unravel rs q))).
+
+  (* ---------------- Tucker regressor (regression/tucker_regression.py:fit) ----------------
+     prediction of a sample = <X_s, G x_k W_k>; it is linear in the core (coefficients: the projected sample X_s x_k W_k')
+     and linear in every factor (coefficient of W_k[i,b]: the prediction with W_k replaced by the unit matrix E_ib) *)
+  Definition tk_inner (X : tensor F) (rs : list nat) (core : list F) (Us : list mat) : F :=
+    gsum (prod (shape X)) (fun o => nth o (data X) (f0 Op) *f tk_rec_at rs core Us (unravel (shape X) o)).
+  Definition unit_mat (d r i b : nat) : mat :=
+    tab2 d r (fun i' b' => if Nat.eqb i' i && Nat.eqb b' b then f1 Op else f0 Op).
+  Definition tkreg_coef (X : tensor F) (rs : list nat) (core : list F) (Us : list mat) (k i b : nat) : F :=
+    tk_inner X rs core (set_nth k (unit_mat (nth k (shape X) 0) (nth k rs 0) i b) Us).
+  Definition tkreg_fit (Xs : list (tensor F)) (ys : list F) (rs : list nat) (core : list F) (Us : list mat) : F :=
+    gsum (length Xs) (fun s => fsq (vget ys s -f tk_inner (nth s Xs (mk [] [])) rs core Us)).
+  (* objective parts: core block  ||y - pred||^2 + reg ||G||^2 ; factor block  ||y - pred||^2 + reg ||W_k||_F^2 *)
+  Definition tkreg_obj_core (Xs : list (tensor F)) (ys : list F) (rs : list nat) (core : list F) (Us : list mat) (reg : F) : F :=
+    tkreg_fit Xs ys rs core Us +f reg *f gsum (prod rs) (fun q => fsq (nth q core (f0 Op))).
+  Definition tkreg_obj_fac (Xs : list (tensor F)) (ys : list F) (rs : list nat) (core : list F) (Us : list mat) (k dk : nat) (reg : F) : F :=
+    tkreg_fit Xs ys rs core Us +f reg *f gsum dk (fun i => gsum (nth k rs 0) (fun b => fsq (mget (nth k Us []) i b))).
+  Definition tkreg_core_normal_lhs (Xs : list (tensor F)) (ys : list F) (rs : list nat) (core : list F) (Us : list mat) (q : nat) : F :=
+    gsum (length Xs) (fun s => tk_core_at (nth s Xs (mk [] [])) Us (unravel rs q)
+                                  *f (vget ys s -f tk_inner (nth s Xs (mk [] [])) rs core Us)).
+  Definition tkreg_fac_normal_lhs (Xs : list (tensor F)) (ys : list F) (rs : list nat) (core : list F) (Us : list mat) (k : nat) (A : mat) (i b : nat) : F :=
+    gsum (length Xs) (fun s => tkreg_coef (nth s Xs (mk [] [])) rs core Us k i b
+                                  *f (vget ys s -f tk_inner (nth s Xs (mk [] [])) rs core (set_nth k A Us))).
+
+  (* ---------------- coupled matrix-tensor factorisation (decomposition/_cmtf_als.py) ----------------
+     X ~ [[w; A, B, C, ..]] and Y ~ A V' share the factor of mode 0.  Objective ||X - [[..]]||^2 + ||Y - A V'||^2.
+     The coupled block solves  lstsq([KR; V], [X_(0)'; Y'])  for A: normal equations  A (G + V'V) = MTTKRP + Y V *)
+  Definition cmtf_fit_Y (Y A V : mat) (d0 q rank : nat) : F :=
+    gsum d0 (fun i => gsum q (fun j => fsq (mget Y i j -f gsum rank (fun r => mget A i r *f mget V j r)))).
+  Definition cmtf_obj (X : tensor F) (Y : mat) (w : list F) (facs : list mat) (V : mat) (q rank : nat) : F :=
+    cp_sqerr X w facs rank +f cmtf_fit_Y Y (nth 0 facs []) V (nth 0 (shape X) 0) q rank.
+  Definition cmtf_G (s : list nat) (w : list F) (facs : list mat) (V : mat) (q r t : nat) : F :=
+    cp_G s w facs 0 (f0 Op) r t +f gsum q (fun j => mget V j r *f mget V j t).
+  Definition cmtf_M (X : tensor F) (Y : mat) (w : list F) (facs : list mat) (V : mat) (q i r : nat) : F :=
+    cp_mttkrp X w facs 0 i r +f gsum q (fun j => mget Y i j *f mget V j r).
+  Definition cmtf_cert_lhs (s : list nat) (w : list F) (facs : list mat) (V : mat) (q rank : nat) (x : mat) (i r : nat) : F :=
+    gsum rank (fun t => mget x i t *f cmtf_G s w facs V q t r).
+
+  (* ---------------- tensor ring (decomposition/_tr_als.py:tensor_ring_als) ----------------
+     core k is an r_k x d_k x r_{k+1} tensor; X[i_1..i_n] = trace(G_1[:,i_1,:] ... G_n[:,i_n,:]).
+     Block `dim`: by cyclicity of the trace X[idx] = sum_{a,b} G_dim[a, i_dim, b] * Sub[b, a] with Sub the product of the cores
+     dim+1, .., n, 1, .., dim-1 (the sub-chain); the design matrix of the block has the entries Sub[b, a] in column a*r_{dim+1}+b *)
+  Definition core_at (G : tensor F) (a i b : nat) : F :=
+    nth ((a * nth 1 (shape G) 0 + i) * nth 2 (shape G) 0 + b) (data G) (f0 Op).
+  Fixpoint tr_prod (cs : list (tensor F)) (idx : list nat) (a b : nat) : F :=
+    match cs, idx with
+    | G :: cs', i :: idx' => gsum (nth 2 (shape G) 0) (fun c => core_at G a i c *f tr_prod cs' idx' c b)
+    | _, _ => if Nat.eqb a b then f1 Op else f0 Op
+    end.
+  Definition tr_entry (cs : list (tensor F)) (idx : list nat) : F :=
+    gsum (nth 0 (shape (nth 0 cs (mk [] []))) 0) (fun a => tr_prod cs idx a a).
+  Definition tr_sub (cs : list (tensor F)) (idx : list nat) (dim b a : nat) : F :=
+    tr_prod (skipn (S dim) cs ++ firstn dim cs) (skipn (S dim) idx ++ firstn dim idx) b a.
+  (* prediction of entry idx as a function of core `dim` (ra x d x rb), the other cores fixed *)
+  Definition tr_pred_block (cs : list (tensor F)) (G : tensor F) (dim : nat) (idx : list nat) : F :=
+    let ra := nth 0 (shape G) 0 in let rb := nth 2 (shape G) 0 in
+    gsum (ra * rb) (fun j => core_at G (j / rb) (nth dim idx 0) (j mod rb) *f tr_sub cs idx dim (j mod rb) (j / rb)).
+  Definition tr_block_obj (X : tensor F) (cs : list (tensor F)) (dim : nat) (G : tensor F) : F :=
+    gsum (prod (shape X)) (fun o => fsq (nth o (data X) (f0 Op) -f tr_pred_block cs G dim (unravel (shape X) o))).
+  Definition tr_sqerr (X : tensor F) (cs : list (tensor F)) : F :=
+    gsum (prod (shape X)) (fun o => fsq (nth o (data X) (f0 Op) -f tr_entry cs (unravel (shape X) o))).
+  (* left-hand side of the normal equations of the block at (slice i, column j) *)
+  Definition tr_normal_lhs (X : tensor F) (cs : list (tensor F)) (dim : nat) (G : tensor F) (i j : nat) : F :=
+    let rb := nth 2 (shape G) 0 in
+    gsum (prod (shape X)) (fun o => let idx := unravel (shape X) o in
+      if Nat.eqb (nth dim idx 0) i
+      then tr_sub cs idx dim (j mod rb) (j / rb) *f (nth o (data X) (f0 Op) -f tr_pred_block cs G dim idx)
+      else f0 Op).
+
   (* ---------------- generic (ridge) least-squares block with several right-hand sides ----------------
      used for the blocks of tensor_ring_als (design matrix = reshaped sub-chain), the ridge ALS of the
      CP / Tucker regressors and the coupled matrix-tensor ALS: the design matrix is captured from the
